@@ -5,6 +5,14 @@ usage: tools/seed_matrix.py [--all-checks]   (default: the seed's own property +
 import json, os, subprocess, sys, concurrent.futures as cf, tempfile, shutil
 
 VERIF = os.path.dirname(os.path.dirname(os.path.abspath(__file__)))
+
+
+def _copy(dst):
+    """scratch copy of the analysed parts of /repo's working tree (no git involved)"""
+    for sub in ("middleware", "docs", os.path.join("firmware", "src")):
+        shutil.copytree(os.path.join("/repo", sub), os.path.join(dst, sub), symlinks=True,
+                        ignore=shutil.ignore_patterns("__pycache__", "*.pyc"))
+
 SEEDS = sorted(d for d in os.listdir(os.path.join(VERIF, "seeded")) if os.path.isdir(os.path.join(VERIF, "seeded", d)))
 PROPS = [f"C{i:02d}" for i in range(1, 20)]
 
@@ -17,9 +25,8 @@ def run_seed(seed):
     wt = tempfile.mkdtemp(prefix=f"seedmx-{seed}-", dir="/tmp")
     os.rmdir(wt)
     try:
-        subprocess.check_call(["git", "-C", "/repo", "worktree", "add", "--detach", "-q", wt, "HEAD"], stdout=subprocess.DEVNULL,
-                              stderr=subprocess.DEVNULL)
-        r = subprocess.run(["git", "-C", wt, "apply", patch], capture_output=True, text=True)
+        _copy(wt)
+        r = subprocess.run(["git", "apply", "--whitespace=nowarn", patch], capture_output=True, text=True, cwd=wt)
         if r.returncode != 0:
             return seed, {"error": "patch does not apply: " + r.stderr[:200]}
         res = {}
@@ -33,7 +40,6 @@ def run_seed(seed):
                       if o.returncode == 1 else (next((l[:200] for l in o.stdout.splitlines() if "ANALYSIS-ERROR" in l), "") if o.returncode == 2 else "")}
         return seed, res
     finally:
-        subprocess.run(["git", "-C", "/repo", "worktree", "remove", "--force", wt], stdout=subprocess.DEVNULL, stderr=subprocess.DEVNULL)
         shutil.rmtree(wt, ignore_errors=True)
 
 
